@@ -289,6 +289,8 @@ func workerMain() {
 				}
 				enc.Encode(&workerMsg{Type: "violation", Case: mc, Violation: mv, Minimised: minimised, Race: race, KnownID: kid})
 			}
+			// reports produced while minimising belong to mutated cases
+			rl.newReports()
 			if st.ViolatingRuns >= *fMaxViol {
 				st.Notes["stopped_early_too_many_violations"]++
 				break
